@@ -167,9 +167,15 @@ func (c *Ctx) LookupFunc(pkg, name string) *types.Func {
 		}
 		obj, _, _ := types.LookupFieldOrMethod(tn.Type(), true, p.Types, name[i+1:])
 		f, _ := obj.(*types.Func)
+		if f == nil {
+			f = c.lookupByRole(pkg, name)
+		}
 		return f
 	}
 	f, _ := p.Types.Scope().Lookup(name).(*types.Func)
+	if f == nil {
+		f = c.lookupByRole(pkg, name)
+	}
 	return f
 }
 
